@@ -1223,10 +1223,15 @@ class BasicWidthStatement(AbstractBasicStatement):
 
     def basic09_text(self, indent_level: int) -> str:
         return (
+            f"{super().basic09_text(indent_level)}"
             f"run _ecb_width("
             f"{self._expr.basic09_text(indent_level=indent_level)}, "
             f"display)"
         )
+
+    def visit(self, visitor: "BasicConstructVisitor") -> None:
+        visitor.visit_statement(self)
+        self._expr.visit(visitor)
 
 
 class BasicCircleStatement(BasicRunCall):
